@@ -335,7 +335,8 @@ def finding_for(ctx, sig, config):
 
 def run(ctx):
     t0 = time.time()
-    ctx.lean_stage([], ["Verif.Props.C01"])
+    ctx.lean_stage([], ["Verif.Props.C01", "Verif.Props.BqCount"])
+    ctx.block("bqcountlib", "bqcount")          # block-quote marker counting: totality / termination / spec (Verif.Props.BqCount)
     rej_ok, rej_txt = natural_definition_rejected()
     if not rej_ok:
         ctx.broken.append({"closeLoopNatural_not_rejected": rej_txt})
